@@ -1024,11 +1024,13 @@ class RTCSctpTransport(AsyncIOEventEmitter):
 
         # common
         if isinstance(chunk, DataChunk):
-            await self._receive_data_chunk(chunk)
+            if self._last_received_tsn is not None:
+                await self._receive_data_chunk(chunk)
         elif isinstance(chunk, SackChunk):
             await self._receive_sack_chunk(chunk)
         elif isinstance(chunk, ForwardTsnChunk):
-            await self._receive_forward_tsn_chunk(chunk)
+            if self._last_received_tsn is not None:
+                await self._receive_forward_tsn_chunk(chunk)
         elif isinstance(chunk, HeartbeatChunk):
             heartbeat_ack = HeartbeatAckChunk()
             heartbeat_ack.params = chunk.params
